@@ -38,6 +38,16 @@ pub fn property() -> Property {
                 replay: |v| replay_case::<MoveText, _>(v, check_move_text),
             },
             Part {
+                // every Unicode scalar value at every position of a 5-character move text: accepted exactly when the
+                // text is a move text (complete enumeration, 5 x 1,112,064 texts)
+                name: "move_char_substitutions",
+                quick: 0,
+                thorough: 0,
+                single_shard: false, supplementary: false,
+                run: run_substitutions,
+                replay: |v| replay_case::<SubstCase, _>(v, check_substitution),
+            },
+            Part {
                 name: "ill_formed",
                 quick: 150_000,
                 thorough: 2_000_000,
@@ -448,6 +458,57 @@ fn run_moves(cfg: &PartCfg) -> crate::run::PartOutcome {
     run_exhaustive(cfg, it, check_move_text)
 }
 
+#[derive(Debug, Clone, Serialize, Deserialize)]
+pub struct SubstCase {
+    pub pos: u8,
+    pub ch: u32,
+}
+
+fn run_substitutions(cfg: &PartCfg) -> crate::run::PartOutcome {
+    let (shard, n) = (cfg.shard, cfg.nshards);
+    let it = (0..5u8).flat_map(move |pos| (0..=0x10FFFFu32).filter(move |c| c % n == shard && char::from_u32(*c).is_some()).map(move |ch| SubstCase { pos, ch }));
+    run_exhaustive(cfg, it, check_substitution)
+}
+
+pub fn check_substitution(c: &SubstCase, ctx: &mut Ctx) -> Result<(), String> {
+    let ch = char::from_u32(c.ch).ok_or("HARNESS: not a scalar value")?;
+    let mut cs: Vec<char> = "e7e8q".chars().collect();
+    cs[c.pos as usize] = ch;
+    let text: String = cs.into_iter().collect();
+    let is_move_text = match c.pos {
+        0 | 2 => ('a'..='h').contains(&ch),
+        1 | 3 => ('1'..='8').contains(&ch),
+        _ => "qrbnkp".contains(ch),
+    };
+    // upper-case ASCII promotion letters are read like the lower-case ones by the code as it stands (Piece::from_char);
+    // the property does not say whether that is a move text: either answer is accepted, but not a different move
+    if c.pos == 4 && "QRBNKP".contains(ch) {
+        if let Ok(m) = UciMove::from_str(&text) {
+            if m != expect_move(&text.to_lowercase())? {
+                return Err(format!("move text {text:?} parsed as {m:?}"));
+            }
+        }
+        ctx.class("upper_case_promotion_letter_not_asserted");
+        return Ok(());
+    }
+    match (UciMove::from_str(&text), is_move_text) {
+        (Ok(m), true) => {
+            if m != expect_move(&text)? || m.to_string() != text {
+                return Err(format!("move text {text:?} parsed as {m:?}"));
+            }
+            ctx.class("accepted");
+        }
+        (Err(_), false) => {
+            if !ch.is_ascii() && ctx.evaluations % 4096 == 0 {
+                ctx.nontrivial(&text);
+            }
+        }
+        (Ok(m), false) => return Err(format!("{text:?} (U+{:04X} at index {}) is no move text but is accepted as {m:?} ({m})", c.ch, c.pos)),
+        (Err(e), true) => return Err(format!("well-formed move text {text:?} rejected: {e:?}")),
+    }
+    Ok(())
+}
+
 pub fn check_move_text(c: &MoveText, ctx: &mut Ctx) -> Result<(), String> {
     let want = expect_move(&c.text)?;
     let got = UciMove::from_str(&c.text).map_err(|e| format!("well-formed move text {:?} rejected: {e:?}", c.text))?;
@@ -487,7 +548,6 @@ fn faulty(a: &Ast, class: u32, x: u32, y: u32) -> Faulty {
         0 => {
             // unknown / capitalised / foreign first word
             let mut t = tokens(a);
-            let first = t[0].clone();
             if x % 7 >= 5 {
                 // a word that is no command IN FRONT of a complete well-formed line: the first word decides
                 let junk = ["xyzzy", "joho", "please", "info", "bestmove", "Go", "quit!", "#", "1"][pick(9, y)].to_string();
@@ -532,6 +592,22 @@ fn faulty(a: &Ast, class: u32, x: u32, y: u32) -> Faulty {
             let tok: String = cs.into_iter().collect();
             let t: Vec<String> = if y % 2 == 0 { vec!["go".into(), "searchmoves".into(), tok] } else { vec!["position".into(), "startpos".into(), "moves".into(), tok] };
             ("bad_move_token_aliasing_char", render_tokens(&t, sp))
+        }
+        3 if y % 3 == 1 => {
+            // ... or by a character that LOOKS like it / case-folds to it (Kelvin sign, Cyrillic and Greek letters,
+            // full-width forms, non-ASCII digits): catches decoders that normalise before comparing
+            let good = ["e2e4", "a7a8q", "h1h8", "b1c3", "g7g8n", "e7e8k", "d7d8r", "c7c8b", "f2f1p"][pick(9, x)];
+            let mut cs: Vec<char> = good.chars().collect();
+            let i = pick(cs.len(), x / 9);
+            let alts = crate::props::c12::lookalikes(cs[i]);
+            if alts.is_empty() {
+                cs[i] = 'é';
+            } else {
+                cs[i] = alts[pick(alts.len(), x / 64)];
+            }
+            let tok: String = cs.into_iter().collect();
+            let t: Vec<String> = if y % 2 == 0 { vec!["go".into(), "searchmoves".into(), tok] } else { vec!["position".into(), "startpos".into(), "moves".into(), tok] };
+            ("bad_move_token_lookalike_char", render_tokens(&t, sp))
         }
         3 => {
             let bad = BAD_MOVES[pick(BAD_MOVES.len(), x)];
